@@ -806,6 +806,23 @@ fn history(family: &str, seed: u64, idx: usize, thorough: bool, out: &mut impl W
                     break;
                 }
             }
+            // a second skinned entity over the same bind-pose asset with its own joints (same number, other entities / order)
+            if let (Some(list), true) = (prev_list.clone(), c.rng.chance(1, 2)) {
+                if !list.is_empty() && joints.len() >= 2 {
+                    let m2 = c.fresh();
+                    c.s.spawn(origin, m2, true, &[], None);
+                    let d = c.drain(40);
+                    c.s.trace.push(json!({"ev":"drain","quiescent":d.0,"rounds":d.1}));
+                    let list2: Vec<u32> = (0..list.len()).map(|_| *c.rng.pick(&joints)).collect();
+                    // the peer that wrote `m` last holds the asset
+                    let holder = c.s.trace.iter().rev().find(|v| v["ev"] == "phase" && v["ty"] == "Skinned").and_then(|v| v["writer"].as_u64()).unwrap_or(origin as u64) as u32;
+                    c.s.trace.push(json!({"ev":"phase","writer":holder,"h":m2,"ty":"Skinned","joints":list2,"shared_with":m}));
+                    if c.s.write_skinned_shared(holder, m2, m, &list2) {
+                        let d = c.drain(40);
+                        c.s.trace.push(json!({"ev":"drain","quiescent":d.0,"rounds":d.1}));
+                    }
+                }
+            }
             // a client that joins afterwards gets the SkinnedMesh through the snapshot
             if c.rng.chance(1, 2) {
                 let shift = c.rng.below(5);
